@@ -109,8 +109,9 @@ func wtRun(t *testing.T, ci int, slots int, steps []wtStep) wtObs {
 		mu.Unlock()
 	})
 	if err != nil {
+		// (no file watcher in this environment: nothing was exercised - the engine reports that as inconclusive)
 		o.Detail = "onFileChanged: " + err.Error()
-		o.Probe = "lost"
+		o.Probe = "unavailable"
 		return o
 	}
 	path := func(f string) string { return filepath.Join(dir, f+".yml") }
